@@ -391,6 +391,45 @@ pub fn run(cases_path: &str, out_path: &str, tier: &str, seed: u64) {
         use pgp::types::PacketLength;
         let k4 = gen_key(seed ^ 0x51, false, &Alg::Ed25519Legacy, None, "c05 history").expect("keygen");
         let k6 = gen_key(seed ^ 0x52, true, &Alg::Ed25519, None, "c05 history v6").expect("keygen");
+        // values built through the API (not parsed): every setter of the flag-like subpackets, alone and together
+        {
+            use pgp::packet::{Features, KeyFlags, SignatureConfig, SignatureType};
+            let setters: Vec<(&str, Box<dyn Fn(&mut KeyFlags)>)> = vec![
+                ("certify", Box::new(|k: &mut KeyFlags| k.set_certify(true))), ("encrypt_comms", Box::new(|k: &mut KeyFlags| k.set_encrypt_comms(true))),
+                ("encrypt_storage", Box::new(|k: &mut KeyFlags| k.set_encrypt_storage(true))), ("sign", Box::new(|k: &mut KeyFlags| k.set_sign(true))),
+                ("shared", Box::new(|k: &mut KeyFlags| k.set_shared(true))), ("authentication", Box::new(|k: &mut KeyFlags| k.set_authentication(true))),
+                ("group", Box::new(|k: &mut KeyFlags| k.set_group(true))),
+                ("adsk", Box::new(|k: &mut KeyFlags| k.set_adsk(true))), ("timestamping", Box::new(|k: &mut KeyFlags| k.set_timestamping(true))),
+                ("adsk_then_cleared", Box::new(|k: &mut KeyFlags| { k.set_adsk(true); k.set_adsk(false) })), ("none", Box::new(|_k: &mut KeyFlags| {})),
+            ];
+            for (name, set) in &setters {
+                for with_features in [false, true] {
+                    nontrivial.fetch_add(1, std::sync::atomic::Ordering::Relaxed);
+                    let r = guard(|| -> Result<(), String> {
+                        let e = |x: pgp::errors::Error| x.to_string();
+                        let mut kf = KeyFlags::default();
+                        set(&mut kf);
+                        let mut cfg = SignatureConfig::v4(SignatureType::Key, k4.primary_key.algorithm(), pgp::crypto::hash::HashAlgorithm::Sha256);
+                        cfg.hashed_subpackets = vec![Subpacket::regular(SubpacketData::SignatureCreationTime(pgp::types::Timestamp::now())).map_err(e)?, Subpacket::regular(SubpacketData::KeyFlags(kf)).map_err(e)?];
+                        if with_features { let mut f = Features::default(); f.set_seipd_v1(true); f.set_seipd_v2(true); cfg.hashed_subpackets.push(Subpacket::regular(SubpacketData::Features(f)).map_err(e)?); }
+                        let sig = cfg.sign_key(&k4.primary_key, &pgp::types::Password::empty(), &k4.primary_key.public_key()).map_err(e)?;
+                        let p = Packet::from(sig);
+                        let bytes = p.to_bytes().map_err(e)?;
+                        if bytes.len() != p.write_len() { return Err(format!("write_len {} but {} octets written", p.write_len(), bytes.len())); }
+                        let (d, used) = deframe_one(&bytes)?;
+                        if used != bytes.len() { return Err("framing is not truthful".into()); }
+                        let _ = d;
+                        match PacketParser::new(&bytes[..]).next() {
+                            Some(Ok(q)) if q == p => {}
+                            Some(Ok(q)) => return Err(format!("the written signature parses back to a different value (same bytes again: {})", q.to_bytes().map(|b| b == bytes).unwrap_or(false))),
+                            other => return Err(format!("the written signature does not parse back: {:?}", other.map(|x| x.map(|_| ()).map_err(|e| e.to_string())))),
+                        }
+                        Ok(())
+                    });
+                    sink.put(rec("c05.api_built", json!({"key_flag": name, "features": with_features}), r.is_ok(), "api_built", json!({"outcome": r.class(), "detail": r.detail()})));
+                }
+            }
+        }
         // notation value lengths around the subpacket length-encoding boundaries (1 / 2 / 5 octets) and the packet-length boundaries
         let lens: [usize; 14] = [0, 1, 150, 177, 178, 179, 180, 300, 8000, 8200, 16300, 16306, 16307, 65000];
         for (kn, k) in [("v4", &k4), ("v6", &k6)] {
